@@ -28,3 +28,27 @@ package merkle_tree
 //@   ensures page: len(result) <= 65536 && fresh(result)
 //@   assigns everything
 //@   opt loopinv=fresh(ret) && uint64(idx) >= uint64(start) && uint64(idx) <= uint64(end) && uint64(end) <= uint64(len(v)) && uint64(len(ret)) == uint64(idx) - uint64(start) && uint64(end) - uint64(start) <= 65536 && uint64(cap(ret)) >= uint64(end) - uint64(start)
+
+// GP (E.7) C: the hashed leaves padded with zero hashes to the next power of two (at least one entry): the length is
+// the smallest power of two that is >= max(1,|v|) and every entry past |v| is the zero hash; every element of v (nil and
+// empty ones included) costs exactly one call of the hash function and padding entries none (`dyncalls()` is the
+// verifier's ghost counter of calls through function values)
+// zeroHash is unexported and never assigned in the package; N hands out a slice of it for the empty sequence, so
+// 'nobody writes through that slice' is an assumption (listed in the evidence)
+//@ readonly zeroHash
+//@ func C
+//@   props C18
+//@   opt purecalls=1
+//@   opt countcalls=1
+//@   requires fn: hashFunc != nil && len(v) <= 1073741824
+//@   ensures hashed: dyncalls() == old(dyncalls()) + len(v)
+//@   ensures size: len(result) >= 1 && len(result) >= len(v) && len(result) & (len(result) - 1) == 0 && (len(result) == 1 || len(result)/2 < len(v)) && fresh(result)
+//@   ensures padding: forall(i, len(v), len(result), forall(b, 0, 32, result[i][b] == 0))
+//@   assigns everything
+//@   loop sz#0
+//@     invariant pow: sz >= 1 && sz <= 1073741824 && sz & (sz - 1) == 0 && (sz == 1 || sz/2 < len(v))
+//@     invariant frame: frame_only()
+//@   loop i#0
+//@     invariant range: i >= 0 && i <= sz && len(ret) == sz && fresh(ret) && sz >= 1 && sz >= len(v) && sz & (sz - 1) == 0 && (sz == 1 || sz/2 < len(v))
+//@     invariant padding: forall(k, len(v), i, forall(b, 0, 32, ret[k][b] == 0))
+//@     invariant hashed: (i <= len(v) ==> dyncalls() == old(dyncalls()) + i) && (i > len(v) ==> dyncalls() == old(dyncalls()) + len(v))
